@@ -44,6 +44,17 @@ func FamilyShapeSkip(thorough bool) []*Conv {
 		add(s)
 		add(ctorByName("struct").F(g, s))
 	}
+	// skipCopySameType together with useZeroValueOnPointerInconsistency: *T -> T of one and the same T, wherever it
+	// stands, still yields the zero value for nil (no level loses its nil check)
+	for i, pos := range []struct{ name, src, tgt string }{
+		{"top", "*PFXSz", "PFXSz"}, {"field", "struct{ P *PFXSz; N int }", "struct{ P PFXSz; N int }"}, {"elem", "[]*PFXSz", "[]PFXSz"},
+		{"mapval", "map[string]*PFXSz", "map[string]PFXSz"}, {"ptrptr", "**PFXSz", "*PFXSz"}, {"field_ptrptr", "struct{ Deep **PFXSz }", "struct{ Deep *PFXSz }"},
+		{"basic_mapval", "map[string]*int", "map[string]int"}, {"named_field", "PFXSzIn", "PFXSzOut"},
+	} {
+		_ = i
+		add(shape{Src: pos.src, Tgt: pos.tgt, Name: "skipzero_" + pos.name, NeedZero: true,
+			Decls: []string{"type PFXSz struct {\n\tName string\n\tRefs []int\n}\ntype PFXSzIn struct {\n\tByKey map[string]*PFXSz\n\tDeep **PFXSz\n\tOne *PFXSz\n}\ntype PFXSzOut struct {\n\tByKey map[string]PFXSz\n\tDeep *PFXSz\n\tOne PFXSz\n}"}})
+	}
 	// the same named type (identical on both sides) at several positions of one method
 	add(shape{Src: "PFXTwS", Tgt: "PFXTwT", Name: "same_named_twice",
 		Decls: []string{"type PFXStamp struct{ Sec int64 }\ntype PFXTwS struct {\n\tCreated PFXStamp\n\tUpdated PFXStamp\n\tAll []PFXStamp\n\tN PFXTwA\n}\ntype PFXTwT struct {\n\tCreated PFXStamp\n\tUpdated PFXStamp\n\tAll []PFXStamp\n\tN PFXTwB\n}\ntype PFXTwA int\ntype PFXTwB int"}})
@@ -82,12 +93,21 @@ func FamilyPtrs(thorough bool) []*Conv {
 		}
 	}
 	positions := []string{"top", "field", "elem", "mapval"}
-	for sd := 0; sd <= 2; sd++ {
-		for td := 0; td <= 2; td++ {
+	for sd := 0; sd <= 3; sd++ {
+		for td := 0; td <= 3; td++ {
 			for bi := 0; bi < 4; bi++ {
 				for _, pos := range positions {
 					if !thorough && pos != "top" && pos != "field" && bi > 1 {
 						continue
+					}
+					if sd == 3 || td == 3 {
+						// three levels: the chains with a middle level (***T on a side), for the scalar and the struct base
+						if bi != 0 && bi != 2 {
+							continue
+						}
+						if !thorough && !(sd == 3 && td == 3) && pos != "field" {
+							continue
+						}
 					}
 					b := mk()[bi]
 					s := shape{Src: stars(sd) + b.src, Tgt: stars(td) + b.tgt, Name: fmt.Sprintf("p%d%d_%s", sd, td, b.name)}
@@ -318,6 +338,32 @@ func FamilyUpdate(thorough bool) []*Conv {
 			Spec:        &Spec{Update: u, Pairs: map[string]*PairSpec{"PFXIn→PFXOut": {Fields: map[string]*FieldSpec{"Keep": {Ignore: true}, "Only": {Ignore: true}, "Stamp": {Fn: "PFXGen", FnNoSource: true}}}}},
 		})
 	}
+	// fields filled through fallible map|FUNC functions inside an update method: a zero-valued source field of a
+	// selected category is skipped together with its function call - it can neither overwrite nor fail the update
+	for _, cats := range []int{0, 1, 4, 7} {
+		n++
+		u := &UpdateSpec{SkipBasic: cats&1 != 0, SkipStruct: cats&2 != 0, SkipNillable: cats&4 != 0}
+		var lines []string
+		switch cats {
+		case 1:
+			lines = []string{"update:ignoreZeroValueField:basic"}
+		case 4:
+			lines = []string{"update:ignoreZeroValueField:nillable"}
+		case 7:
+			lines = []string{"update:ignoreZeroValueField"}
+		}
+		out = append(out, &Conv{
+			ID:          fmt.Sprintf("update/falliblefunc/c%d", cats),
+			Family:      "update",
+			Format:      []string{"struct", "function", "variable"}[n%3],
+			Params:      "source PFXIn, target *PFXOut",
+			Results:     "error",
+			Decls:       "type PFXIn struct {\n\tNum string\n\tTags []string\n\tA int\n}\ntype PFXOut struct {\n\tNum int\n\tTags string\n\tA int\n\tKeep int\n}\nfunc PFXAtoi(s string) (int, error) { return 0, nil }\nfunc PFXJoin(s []string) (string, error) { return \"\", nil }\n",
+			MethodLines: append([]string{"update target", "ignore Keep", "map Num | PFXAtoi", "map Tags | PFXJoin"}, lines...),
+			Spec: &Spec{Update: u, Pairs: map[string]*PairSpec{"PFXIn→PFXOut": {Fields: map[string]*FieldSpec{"Keep": {Ignore: true},
+				"Num": {Path: []string{"Num"}, Fn: "PFXAtoi"}, "Tags": {Path: []string{"Tags"}, Fn: "PFXJoin"}}}}},
+		})
+	}
 	// an update method whose struct pair contains itself by value, next to a declared method of the pointer family
 	// that carries field settings: the overlap is reported (a diagnostic, not a crash)
 	for _, f := range []string{"struct", "function", "variable"} {
@@ -374,15 +420,15 @@ func FamilyUpdate(thorough bool) []*Conv {
 				fres, body = "(*PFXOut, error)", "return &PFXOut{}, nil"
 			}
 			out = append(out, &Conv{
-				ID:      fmt.Sprintf("update/with_same_pair_extend/err%v/%s", withErr, f),
-				Family:  "update",
-				Format:  f,
-				Params:  "source PFXIn, target *PFXOut",
-				Results: "error",
-				Decls:   "type PFXIn struct {\n\tA int\n\tB string\n\tKeep int\n}\ntype PFXOut struct {\n\tA int\n\tB string\n\tKeep int\n\tOnly string\n}\n" + fmt.Sprintf("func PFXMk(s PFXIn) %s { %s }\n", fres, body),
+				ID:          fmt.Sprintf("update/with_same_pair_extend/err%v/%s", withErr, f),
+				Family:      "update",
+				Format:      f,
+				Params:      "source PFXIn, target *PFXOut",
+				Results:     "error",
+				Decls:       "type PFXIn struct {\n\tA int\n\tB string\n\tKeep int\n}\ntype PFXOut struct {\n\tA int\n\tB string\n\tKeep int\n\tOnly string\n}\n" + fmt.Sprintf("func PFXMk(s PFXIn) %s { %s }\n", fres, body),
 				ConvLines:   []string{"extend PFXMk"},
 				MethodLines: []string{"update target", "ignore Keep Only"},
-				Spec: &Spec{Update: &UpdateSpec{}, Pairs: map[string]*PairSpec{"PFXIn→PFXOut": {Fields: map[string]*FieldSpec{"Keep": {Ignore: true}, "Only": {Ignore: true}}}}},
+				Spec:        &Spec{Update: &UpdateSpec{}, Pairs: map[string]*PairSpec{"PFXIn→PFXOut": {Fields: map[string]*FieldSpec{"Keep": {Ignore: true}, "Only": {Ignore: true}}}}},
 			})
 		}
 	}
@@ -592,12 +638,12 @@ func FamilyDefault(thorough bool) []*Conv {
 				lines = append(lines, "default:update")
 			}
 			out = append(out, &Conv{
-				ID:      fmt.Sprintf("default/nonstruct_pointee_%s_upd%v", np.name, upd),
-				Family:  "default",
-				Format:  []string{"struct", "function", "variable"}[(n+i)%3],
-				Params:  "source *" + np.t,
-				Results: "*" + np.t,
-				Decls:   "type PFXNum int\n" + fmt.Sprintf("func PFXNew() *%s { v := %s(%s); return &v }\n", np.t, np.t, np.zero),
+				ID:          fmt.Sprintf("default/nonstruct_pointee_%s_upd%v", np.name, upd),
+				Family:      "default",
+				Format:      []string{"struct", "function", "variable"}[(n+i)%3],
+				Params:      "source *" + np.t,
+				Results:     "*" + np.t,
+				Decls:       "type PFXNum int\n" + fmt.Sprintf("func PFXNew() *%s { v := %s(%s); return &v }\n", np.t, np.t, np.zero),
 				MethodLines: lines,
 				Spec:        &Spec{Update: u},
 				Bounds:      &Bounds{MaxSlice: 1, MaxMap: 1, RecDepth: 1},
@@ -623,6 +669,88 @@ func FamilyDefault(thorough bool) []*Conv {
 			Params: fc.params, Results: fc.res, Decls: fc.decl, MethodLines: []string{"default PFXNew"},
 			Spec: &Spec{}, ExpectFail: true, FailNote: "*T -> U without useZeroValueOnPointerInconsistency (the method has a default constructor)",
 		})
+	}
+	// default on a method whose own conversion is a container: FUNC (returning the zero value here, so every
+	// reading of "starts from FUNC's result" agrees) must not leak into the nested conversions - elements and
+	// values T -> *U are still non-nil pointers to the converted value, nested pointers are rebuilt
+	for i, cc := range []struct {
+		name, src, tgt, fres string
+		upd, zero            bool
+	}{
+		{"elem_unnamed", "[]struct{ A int }", "[]*PFXT", "[]*PFXT", false, false},
+		{"elem_unnamed_ptr_upd", "[]*struct{ A int }", "[]*PFXT", "[]*PFXT", true, false},
+		{"elem_named", "[]PFXS", "[]*PFXT", "[]*PFXT", false, false},
+		{"elem_named_upd", "[]PFXS", "[]*PFXT", "[]*PFXT", true, false},
+		{"elem_basic", "[]int", "[]*int", "[]*int", false, false},
+		{"elem_basic_ptr_upd", "[]*int", "[]*int", "[]*int", true, false},
+		{"elem_srcptr_upd", "[]*struct{ A int }", "[]PFXT", "[]PFXT", true, true},
+		{"fromarray_elem_unnamed", "[2]struct{ A int }", "[]*PFXT", "[]*PFXT", false, false},
+	} {
+		lines := []string{"default PFXNew"}
+		if cc.upd {
+			lines = append(lines, "default:update")
+		}
+		var clines []string
+		if cc.zero {
+			clines = []string{"useZeroValueOnPointerInconsistency"}
+		}
+		sp := &Spec{ZeroOnNil: cc.zero}
+		out = append(out, &Conv{
+			ID: "default/container_" + cc.name, Family: "default", Format: []string{"struct", "function", "variable"}[i%3],
+			Params: "source " + cc.src, Results: cc.tgt,
+			Decls:       "type PFXS struct{ A int }\ntype PFXT struct{ A int }\n" + fmt.Sprintf("func PFXNew() %s { var zero %s; return zero }\n", cc.fres, cc.fres),
+			MethodLines: lines, ConvLines: clines,
+			Spec:   sp,
+			Bounds: &Bounds{MaxSlice: 2, MaxMap: 1, RecDepth: 1},
+		})
+	}
+	// the pointee pair of a method with a default constructor is served by an extend function / a declared method:
+	// that function still decides the value (C06), FUNC's instance is only the place it is stored in
+	for i, cc := range []struct {
+		name, src, tgt string
+		upd, zero      bool
+	}{
+		{"val_to_ptr", "PFXIn", "*PFXOut", false, false},
+		{"ptr_to_ptr_upd", "*PFXIn", "*PFXOut", true, false},
+		{"ptr_to_val_upd", "*PFXIn", "PFXOut", true, true},
+	} {
+		for _, declared := range []bool{false, true} {
+			f := []string{"struct", "function", "variable"}[i%3]
+			fres, body := "*PFXOut", "return &PFXOut{}"
+			if cc.tgt == "PFXOut" {
+				fres, body = "PFXOut", "return PFXOut{}"
+			}
+			decls := "type PFXIn struct {\n\tName string\n\tKind string\n}\ntype PFXOut struct {\n\tName string\n\tKind string\n}\n" + fmt.Sprintf("func PFXNew() %s { %s }\n", fres, body)
+			lines := []string{"default PFXNew"}
+			if cc.upd {
+				lines = append(lines, "default:update")
+			}
+			var clines []string
+			if cc.zero {
+				clines = append(clines, "useZeroValueOnPointerInconsistency")
+			}
+			sp := &Spec{ZeroOnNil: cc.zero, Update: &UpdateSpec{DefaultFn: "PFXNew", DefaultUpdate: cc.upd}}
+			cv := &Conv{
+				Family: "default", Format: f, Params: "source " + cc.src, Results: cc.tgt, MethodLines: lines,
+				Bounds: &Bounds{MaxSlice: 1, MaxMap: 1, RecDepth: 1},
+			}
+			if declared {
+				cv.ID = "default/custom_pair_declared_" + cc.name
+				inner := "\t// goverter:map Name Kind\n\t// goverter:map Kind Name\n\tPFXInner(source PFXIn) PFXOut\n"
+				if f == "variable" {
+					inner = strings.Replace(inner, "PFXInner(", "PFXInner func(", 1)
+				}
+				cv.ExtraMethods = inner
+				sp.Pairs = map[string]*PairSpec{"PFXIn→PFXOut": {Fields: map[string]*FieldSpec{"Kind": {Path: []string{"Name"}}, "Name": {Path: []string{"Kind"}}}}}
+			} else {
+				cv.ID = "default/custom_pair_extend_" + cc.name
+				decls += "func PFXExt(in PFXIn) PFXOut { return PFXOut{} }\n"
+				clines = append(clines, "extend PFXExt")
+				sp.Custom = map[string]string{"PFXIn→PFXOut": "PFXExt"}
+			}
+			cv.Decls, cv.ConvLines, cv.Spec = decls, clines, sp
+			out = append(out, cv)
+		}
 	}
 	// the method's struct pair occurs again by value inside itself (the method is built more than once while its
 	// sub-methods are discovered): FUNC still applies on every build
@@ -713,6 +841,40 @@ func FamilySameType(thorough bool) []*Conv {
 			add(shape{Src: pos.src, Tgt: pos.tgt, Name: fmt.Sprintf("addr_same_%s_%d", pos.name, i), Decls: []string{d}})
 		}
 		add(shape{Src: fmt.Sprintf("*PFXAd%d", k), Tgt: fmt.Sprintf("PFXAd%d", k), Name: fmt.Sprintf("deref_same_%d", i), Decls: []string{d}, NeedZero: true})
+	}
+	// a small unnamed value struct (basic fields only), identical on both sides, converted to a pointer to it
+	for i, inner := range []string{"struct{ X, Y int }", "struct{ S string }", "struct {\n\tA int `json:\"a\"`\n\tB bool\n}"} {
+		for _, pos := range []struct{ name, src, tgt string }{
+			{"top", inner, "*" + inner},
+			{"field", "struct{ Origin " + inner + "; N int }", "struct{ Origin *" + inner + "; N int }"},
+			{"elem", "[]" + inner, "[]*" + inner},
+			{"arrelem", "[2]" + inner, "[]*" + inner},
+			{"mapval", "map[string]" + inner, "map[string]*" + inner},
+			{"named_field", "PFXVs", "PFXVt"},
+		} {
+			if i > 0 && pos.name != "field" && pos.name != "elem" {
+				continue
+			}
+			add(shape{Src: pos.src, Tgt: pos.tgt, Name: fmt.Sprintf("addr_same_unnamed_%s_%d", pos.name, i),
+				Decls: []string{"type PFXVs struct {\n\tOrigin " + inner + "\n\tPoints []" + inner + "\n}\ntype PFXVt struct {\n\tOrigin *" + inner + "\n\tPoints []*" + inner + "\n}"}})
+		}
+	}
+	// two different named types with one underlying reference type: converted element by element, never by a Go
+	// type conversion (which would share the map / backing array / pointee)
+	for i, nt := range []struct{ name, under string }{
+		{"map", "map[string]string"}, {"mapint", "map[int]bool"}, {"slice", "[]int"}, {"ptr", "*int"}, {"mapslice", "map[string][]int"},
+	} {
+		d := fmt.Sprintf("type PFXNa%d %s\ntype PFXNb%d %s\n", i, nt.under, i, nt.under)
+		a, b := fmt.Sprintf("PFXNa%d", i), fmt.Sprintf("PFXNb%d", i)
+		for _, pos := range []struct{ name, src, tgt string }{
+			{"top", a, b}, {"field", "struct{ L " + a + "; N int }", "struct{ L " + b + "; N int }"}, {"elem", "[]" + a, "[]" + b},
+			{"mapval", "map[string]" + a, "map[string]" + b}, {"pointee", "*" + a, "*" + b},
+		} {
+			if !thorough && i > 2 && pos.name != "field" {
+				continue
+			}
+			add(shape{Src: pos.src, Tgt: pos.tgt, Name: fmt.Sprintf("named_to_named_%s_%s", nt.name, pos.name), Decls: []string{d}})
+		}
 	}
 	leaves := []shape{{Src: "int", Tgt: "int", Name: "int"}, {Src: "*int", Tgt: "*int", Name: "pint"}, {Src: "[]string", Tgt: "[]string", Name: "strs"}}
 	for _, l := range leaves {
